@@ -3,7 +3,7 @@ from .common import *
 from spec.protocol_doc import block_named, in_docset
 from .hsm2dongle_basic import ok
 from .hsm2dongle_state import frame_some
-from .ledger_protocol import PROTO, handler_clauses, handler_raises, ci, ALLH
+from .ledger_protocol import PROTO, handler_clauses, handler_raises, ci, ALLH, RES
 
 ADV_RESULT = TUPLE(BOOL_, INT_)
 
@@ -79,6 +79,7 @@ def blocks_validated(request):
 class AdvanceHandler(Contract):
     self_spec = PROTO
     params = dict(request=JSON_)
+    result = RES()
     modifies_self = dict(_comm_issue=BOOL_)
     exception_serves = ("C03", "C04")
 
@@ -103,6 +104,7 @@ class AdvanceHandler(Contract):
 class UpdateAncestorHandler(Contract):
     self_spec = PROTO
     params = dict(request=JSON_)
+    result = RES()
     modifies_self = dict(_comm_issue=BOOL_)
     exception_serves = ("C03", "C04")
 
